@@ -142,8 +142,9 @@ class _SimFile:
 
 
 class SimFS:
-    def __init__(self, root):
+    def __init__(self, root, stepclock=None):
         self.root = root
+        self.stepclock = stepclock
         self.seq = 0
         self.events = []
         self.faults = []
@@ -164,7 +165,8 @@ class SimFS:
 
     def _event(self, kind, rel, n):
         self.seq += 1
-        self.events.append((self.seq, kind, rel, n))
+        sc = self.stepclock
+        self.events.append((self.seq, kind, rel, n, sc.steps if sc is not None else 0))
 
     def _fault(self, on, rel, mode):
         """Return the fault that fires on this call, if any (n-th matching call)."""
@@ -341,7 +343,7 @@ class World:
         os.makedirs(os.path.join(self.root, "outputs"))
         self.prev_cwd = os.getcwd()
         os.chdir(self.root)
-        self.fs = SimFS(self.root)
+        self.fs = SimFS(self.root, stepclock)
         self.repo_files = frozenset(snap.paths.values())
         self.virtual_seconds = 0.0
         self.total_steps = 0
